@@ -163,7 +163,10 @@ func (i *Domain) Distance(
 			alignment = telem.NewAlignment(iter.Position(), uint32(sampleCount(iter.Size())))
 			return
 		}
-		if iter.TimeRange().ContainsStamp(tr.End) {
+		// As for the first domain, a range ending exactly where this domain ends is resolved
+		// within it: the domain after it does not overlap the range, so moving on would
+		// report a continuous range as discontinuous.
+		if iter.TimeRange().ContainsStamp(tr.End) || tr.End == iter.TimeRange().End {
 			if err = r.Close(); err != nil {
 				return
 			}
